@@ -54,6 +54,8 @@ type ReportCase struct {
 	ProjDir string `json:"proj_dir,omitempty"`
 	// Invoke: how spok is pointed at the project (sandbox.Box.Invoke)
 	Invoke  string      `json:"invoke,omitempty"`
+	// Outputs: "files" = standard output and error are regular files (sandbox.Box.FileOutputs)
+	Outputs string `json:"outputs,omitempty"`
 	Vars    [][2]string `json:"vars"`
 	Tasks   []RTask     `json:"tasks"`
 	Actions []RAction   `json:"actions"`
@@ -81,6 +83,7 @@ func genReport(t *rapid.T) ReportCase {
 	c := genReportBody(t)
 	c.ProjDir = genProjDir(t)
 	c.Invoke = genInvoke(t)
+	c.Outputs = genOutputs(t)
 	c.DotEnv = rapid.IntRange(0, 2).Draw(t, "dotenv") == 0
 	c.JoinPair = rapid.IntRange(0, 3).Draw(t, "join_pair") == 0
 	if c.Invoke == "" && rapid.IntRange(0, 2).Draw(t, "nested") == 0 {
@@ -271,6 +274,7 @@ func execReport(s *ev.Shard, b *sandbox.Box, c ReportCase) *rp.Fail {
 	if err := b.ResetFor(c.ProjDir, c.Invoke); err != nil {
 		return &rp.Fail{Sig: "harness", Msg: err.Error()}
 	}
+	b.FileOutputs = c.Outputs == "files"
 	src := c.source()
 	files := map[string]string{"spokfile": src, "in.txt": "input"}
 	if c.DotEnv {
